@@ -569,7 +569,9 @@ def per_element(r, n, k=None, transposed=False):
         if len(r.data) != n or any(x is None for x in r.data):
             return None
         return [np.asarray(x, dtype=float).flatten() for x in r.data]
-    if isinstance(r, tuple) and len(r) == 2 and k == 1:        # (theta(s), v(s)) of angvec
+    if k == 1 and isinstance(r, list) and len(r) == n and all(isinstance(x, tuple) and len(x) == 2 for x in r):
+        r = [x[0] for x in r]                                   # angvec of n rotations: a list of (theta, v) pairs (fix 3803e60)
+    elif isinstance(r, tuple) and len(r) == 2 and k == 1:      # (theta, v) of a single-valued angvec
         r = r[0]
     try:
         a = np.asarray(r, dtype=float)
